@@ -127,7 +127,10 @@ def run_shard(tier, seed, idx, n, res, tmp):
                 out = judge(res, klass, payload, mfiles, 'mutant', replay)
                 res.count('mutant_' + out)
                 if out == 'invalid_spec' and len(refused) < b['cli'] * 4:
-                    refused.append(mfiles)
+                    # the CLI reads files with universal newlines, so a text holding a
+                    # carriage return is not the text the in-process compile refused
+                    if not any('\r' in t for _, t in mfiles):
+                        refused.append(mfiles)
                 if mi == 0 and ci < 3 * n:
                     res.sample({'workload': 'mutant', 'edits': edits, 'outcome': out,
                                 'error': repr(payload)[:160] if out != 'api' else None,
